@@ -4,6 +4,8 @@ CONSTANTS
   Atoms <- Atoms4
   MaxLevel = 2
   Scale = 1
+  PropGuardBug = FALSE
+  EmitFrom = 0
   SavePredBug = FALSE
 VIEW GView
 ACTION_CONSTRAINT Emit
